@@ -176,11 +176,6 @@ def dyck : List Pos → List Ev → Bool
       | [] => false
     else dyck (e.pos :: st) es
 
-/-- number of callbacks delivered out of `len` when the counter starts at `n` -/
-def delivered (brk : Nat → Bool) : Nat → Nat → Nat
-  | _, 0 => 0
-  | n, len + 1 => if brk n then 1 else 1 + delivered brk (n + 1) len
-
 /-! ### the mutating walk (`VisitMut::visit`)
 
 A callback of hook family `h` (pre or post) receives the value and may replace it: `cb h post v`.
